@@ -984,6 +984,9 @@ func (s *SwapService) ResendLastMessage(swapId string) error {
 	if err != nil {
 		return err
 	}
+	// The swap data is shared with the swap's state machine.
+	swap.mutex.Lock()
+	defer swap.mutex.Unlock()
 	action := &SendMessageAction{}
 	event := action.Execute(s.swapServices, swap.Data)
 	if event == Event_ActionFailed {
